@@ -576,6 +576,20 @@ def l_index(ex, rn, recv, args, s, sink, node):
         ex.raise_(s, "ValueError", sink, _origin(node))
         return []
     x = ops.coerce(args[0], recv.t.elem).e
+    if len(args) > 2:
+        raise Unsupported("list.index with a stop argument")
+    if len(args) == 2:
+        # list.index(x, start): the first position >= start (a negative start counts from the end, clamped at 0) holding x
+        if args[1].t != ty.Int:
+            raise Unsupported("list.index start of type %s" % args[1].t)
+        n, st0 = z3.Length(recv.e), args[1].e
+        eff = z3.If(st0 < 0, z3.If(n + st0 < 0, 0, n + st0), st0)
+        r = z3.Const("pos!%d" % ex._fresh(), z3.IntSort())
+        k = z3.Const("k!fo%d" % ex._fresh(), z3.IntSort())
+        s.assume(r >= -1)
+        s.assume(z3.Implies(r >= 0, z3.And(eff <= r, r < n, recv.e[r] == x)))
+        s.assume(z3.ForAll([k], z3.Implies(z3.And(eff <= k, k < n, z3.Or(r < 0, k < r)), recv.e[k] != x)))
+        return ex.cases(s, [(r >= 0, "val", SV(ty.Int, r)), (r < 0, "exc", "ValueError")], sink, _origin(node))
     r = _search_position(ex, recv.e, x)
     _first_occurrence_facts(ex, s, recv.e, x, r)
     return ex.cases(s, [(r >= 0, "val", SV(ty.Int, r)), (r < 0, "exc", "ValueError")], sink, _origin(node))
